@@ -272,7 +272,7 @@ theorem replaceInline_ok (text : Str) (e : Expand) : Ok (replaceInline rec env t
   unfold replaceInline
   hoare
 
-theorem replaceGroupText_ok (g : Str) (sp : Bool) (e : Expand) : Ok (replaceGroupText rec env g sp e) := by
+theorem replaceGroupText_ok (g : Str) (sp : Bool) (e : Expand) (ia : Bool) : Ok (replaceGroupText rec env g sp e ia) := by
   have hr := replaceInline_ok rec env hs
   intro s hI
   unfold replaceGroupText
